@@ -47,6 +47,38 @@ func pqStreamK1(rep *Report, m *model.Client, e *pqengine.Engine, what string) {
 			rep.violate(Violation{Kind: "oracle", Sig: "pq-page-headers/last-id-vs-tail",
 				Detail: fmt.Sprintf("%s: the last event id in the page headers is %d, the tail id of the queue root %d", what, prev, cs.TailID),
 				Replay: pqReplay{Config: e.Cfg, Log: tailLog(e.Log, 300), Mode: "page-headers"}})
+		} else if seen && cs.TailID == uint64(e.Flushed) {
+			// K1 (writer side): the page in which each event starts, as the page headers say (first / last / off),
+			// vs. the layout rule of the Coq model (starts_from; theorem ack_on_layout builds on it)
+			const hdr = 28 // szEventPageHeader
+			P := int(e.Cfg.PageSize) - hdr
+			var ps []string
+			var id0 uint64
+			pos := -1
+			for k, pg := range cs.Pages {
+				if pg.Off == 0 {
+					continue
+				}
+				if pos < 0 {
+					id0, pos = pg.First, k*P+int(pg.Off)-hdr
+				}
+				for i := pg.First; i <= pg.Last && len(ps) < 1<<16; i++ {
+					ps = append(ps, fmt.Sprint(k))
+				}
+			}
+			if pos >= 0 && int(id0)+len(ps) <= len(e.Events) {
+				lens := make([]string, len(ps))
+				for i := range ps {
+					lens[i] = fmt.Sprint(len(e.Events[int(id0)+i]))
+				}
+				mod := m.Ask(fmt.Sprintf("starts %d %d %s", P, pos, strings.Join(lens, " ")))
+				rep.count("k1:event-start-pages", 1)
+				if impl := strings.Join(ps, ","); impl != mod {
+					rep.violate(Violation{Kind: "correspondence", Sig: "pq-page-headers/event-start-pages",
+						Detail: fmt.Sprintf("%s: the pages in which the events %d.. start according to the page headers: [%s], according to the layout model: [%s]; headers (id first last off): %v", what, id0, trunc(impl, 200), trunc(mod, 200), cs.Pages),
+						Replay: pqReplay{Config: e.Cfg, Log: tailLog(e.Log, 300), Mode: "page-headers"}})
+				}
+			}
 		}
 	}
 	stream, payload, pos, n, _, err := e.RawStream()
